@@ -1,5 +1,5 @@
 (* C11 - property theorems only. *)
-From HV Require Import Prelude C11_Model C11_Check C11_Proofs C11_Proofs2.
+From HV Require Import Prelude C11_Model C11_Check C11_Proofs C11_Proofs2 C11_Proofs3 C11_Proofs4 C11_Proofs5 C11_Proofs6 C11_Proofs7 C11_Proofs8.
 From Coq Require Import Permutation Sorted.
 
 (* sorting (Haplotypes.sort / Haplotype.sort): a permutation, ordered by
@@ -73,3 +73,85 @@ Theorem C11_legacy_variantless_query_refuted :
   read_indexed false fetch_spec f (Some (mkreg 1 None None)) None = Ok [(mkh false 1 10 30 2, [])].
 Proof. exact legacy_variantless_query_refuted. Qed.
 Print Assumptions C11_legacy_variantless_query_refuted.
+
+(* IDs alone (no region): the early exit of _iter_haps loses nothing *)
+Theorem C11_indexed_ids_eq_filter :
+  forall (fetch : list line -> Z -> option Z -> option Z -> res (list line)),
+  (forall f q a b, tabix_okb f = true -> fetch f q a b = fetch_spec f q a b) ->
+  forall f, tabix_okb f = true ->
+  forall ids, NoDup ids -> wf f -> ids <> [] ->
+  exists full, read_plain f None = Ok full /\
+    read_indexed false fetch f None (Some ids) = Ok (filter (selected None (Some ids)) full).
+Proof. exact indexed_ids_eq_filter. Qed.
+Print Assumptions C11_indexed_ids_eq_filter.
+
+(* index_haps on a well-formed file: completes, the output is accepted by tabix
+   (every sequence name contiguous and start-sorted) and holds exactly the
+   H, R and V records of the input (mandatory fields) *)
+Theorem C11_indexed_file_tabix_ok : forall f, wf f ->
+  tabix_okb (to_str (sort_data (map (entry_of (vrecs f)) (hrs f)))) = true.
+Proof. exact sorted_output_tabix_ok. Qed.
+Print Assumptions C11_indexed_file_tabix_ok.
+
+Theorem C11_index_keeps_records : forall f, wf f ->
+  exists out, index_output true f = Ok out /\ tabix_okb out = true /\
+    Permutation (records f) (records out).
+Proof. exact index_sorted_total. Qed.
+Print Assumptions C11_index_keeps_records.
+
+(* --no-sort: every line (header, extra fields) verbatim, whenever tabix accepts the file *)
+Theorem C11_index_nosort_verbatim : forall f,
+  (tabix_okb f = true -> index_output false f = Ok f) /\
+  (forall out, index_output false f = Ok out -> out = f).
+Proof. intros f. split; [apply index_nosort_accepts|apply index_nosort_verbatim]. Qed.
+Print Assumptions C11_index_nosort_verbatim.
+
+(* tabix acceptance only looks at the (sequence, start, end) triples of the data lines *)
+Theorem C11_tabix_walk_is_walk3 : forall f seen cur,
+  tabix_walk seen cur f = walk3 seen cur (triples f).
+Proof. exact tabix_walk_triples. Qed.
+Print Assumptions C11_tabix_walk_is_walk3.
+
+(* what the index checker means *)
+Theorem C11_holds_index_sorted_sound : forall k,
+  i_sort k = true -> wf_file (i_in k) = true -> holds_index k = true ->
+  i_obs k = Err E_Unobserved \/
+  exists out, i_obs k = Ok out
+    /\ Permutation (records (i_in k)) (records out)
+    /\ (forall l, In l out -> match l with LX _ _ _ _ _ => False | _ => True end)
+    /\ tabix_okb out = true
+    /\ i_fetch k = Ok (data_lines out)
+    /\ (i_plain k = true -> i_after k = Some (i_in k)).
+Proof. exact holds_index_sorted_sound. Qed.
+Print Assumptions C11_holds_index_sorted_sound.
+
+Theorem C11_holds_index_nosort_sound : forall k,
+  i_sort k = false -> tabix_okb (i_in k) = true -> holds_index k = true ->
+  i_obs k = Ok (i_in k)
+  /\ i_fetch k = Ok (data_lines (i_in k))
+  /\ (i_plain k = true -> i_after k = Some (i_in k)).
+Proof. exact holds_index_nosort_sound. Qed.
+Print Assumptions C11_holds_index_nosort_sound.
+
+(* end to end: index a well-formed file, query the result by region (+IDs):
+   the answer is the filter of a full read of the ORIGINAL un-indexed file, up to
+   the order of the records and of the variants inside a record *)
+Theorem C11_query_on_index_output : forall f, wf f ->
+  forall (fetch : list line -> Z -> option Z -> option Z -> res (list line)),
+  (forall g q a b, tabix_okb g = true -> fetch g q a b = fetch_spec g q a b) ->
+  forall r ids, (r_a r = None -> r_b r = None) -> In (r_contig r) (contigs f) ->
+  exists full res res',
+    index_output true f = Ok (to_str (sort_data (map (entry_of (vrecs f)) (hrs f)))) /\
+    read_plain f None = Ok full /\
+    read_indexed false fetch (to_str (sort_data (map (entry_of (vrecs f)) (hrs f)))) (Some r) ids = Ok res /\
+    Permutation res res' /\
+    Forall2 entry_same (filter (selected (Some r) ids) full) res'.
+Proof. exact query_on_index_output. Qed.
+Print Assumptions C11_query_on_index_output.
+
+(* with distinct IDs the sorted order is unique: whatever comparison sort the
+   implementation uses, a sorted permutation of the data is the model's list *)
+Theorem C11_sorted_unique : forall l l' : list hrec,
+  NoDup (map h_id l) -> Permutation l l' -> StronglySorted h_key_le l' -> l' = isort h_ltb l.
+Proof. exact sorted_unique. Qed.
+Print Assumptions C11_sorted_unique.
